@@ -23,6 +23,10 @@ FAMILY = [
     ("start: c NEWLINE\na: c 'x' | 'b'\nc: a\n", r"b( x)*", None),
     ("start: a NEWLINE\na: c 'x' | 'b'\nc: d\nd: a\n", r"b( x)*", None),
     ("start: d NEWLINE\na: c 'x' | 'b'\nc: d\nd: a\n", r"b( x)*", None),
+    # a cycle of two rules one of which is ALSO directly left-recursive (it must be the leader, whatever the names)
+    ("start: t NEWLINE\ni: t 'x' | 'a'\nt: t 'y' | i 'z' | 'b'\n", r"(b|a z)( y| x z)*", None),
+    ("start: i NEWLINE\ni: t 'x' | 'a'\nt: t 'y' | i 'z' | 'b'\n", r"a|(b|a z)( y| x z)* x", None),
+    ("start: a NEWLINE\nz: a 'x' | 'q'\na: a 'y' | z 'w' | 'b'\n", r"(b|q w)( y| x w)*", None),
     ("start: a NEWLINE\na: [a 'x'] 'b'\n", r"b( x b)*", None),
     ("start: a NEWLINE\na: (a 'x')* 'b'\n", None, None),           # only termination and correspondence
     ("start: expr NEWLINE\nexpr: (expr '+') NUMBER | NUMBER\n", r"1( \+ 1)*", "start: expr NEWLINE\nexpr: NUMBER ('+' NUMBER)*\n"),
